@@ -92,10 +92,11 @@ class CHECK(vlib.Check):
                 "decision, Unlock*Aux, (Maybe)NotifySomeWaitingThreads, NotifyNextWriterThread, NotifyAllReaderThreads, both "
                 "_preferWriters settings.  Not modelled: out-of-memory paths, the deadlock-finder and locking-violation "
                 "instrumentation, uint32 wrap of the recursion counts, Mutex/WaitCondition internals (premises).")
-    premises = ["std::recursive_mutex / std::condition_variable semantics: under the controlled scheduler blocking is simulated by the scheduler (mutex owners, WaitCondition counting semantics); the native primitives are premises (DESIGN.md 5.3)",
-                "one transition = one _stateMutex critical section (or one return of Wait()): interleavings inside a critical section are not distinguished; the release of a recycled WaitCondition is taken to be atomic with the critical section that precedes it",
-                "recursion counts stay below 2^32; allocation never fails",
-                "liveness is proved in its safety form only (an enabled transition exists); fairness of the OS scheduler is not modelled"]
+    premises = ["std::recursive_mutex / std::condition_variable: under the controlled scheduler blocking is simulated by the scheduler (mutex owners; a WaitCondition waiter is resumed iff the real _pendingNotificationsCount is positive, the real FlushNotificationsCount/IncreaseNotificationsCount code runs); the native primitives themselves are premises (DESIGN.md 5.3)",
+                "one transition = one _stateMutex critical section or one return of Wait(): the release of a recycled WaitCondition (end of the call, outside _stateMutex) is taken to be atomic with the critical section that precedes it",
+                "recursion counts stay below 2^32; allocation never fails (the out-of-memory returns are not modelled; the other error returns of the upgrade path are proved dead, C18_rw_upgrade_inner_calls_succeed)",
+                "liveness is proved in safety / possibility form only (hand-off invariant, an enabled transition exists, the favoured waiter is admitted within two of its own transitions); fairness of the OS scheduler is not modelled",
+                "known finding F22: a timed LockReadWrite() on the upgrade path can overrun its deadline (C18_timed_upgrade_refuted)"]
     rule = ("each case = 2..4 thread programs over LockReadOnly/LockReadWrite (untimed, try, timed), UnlockReadOnly/UnlockReadWrite "
             "+ a writer-preference setting + a schedule (explicit decisions, then a seeded random or non-preemptive policy); the real "
             "ReaderWriterMutex is run under the controlled scheduler and, per decision, the enabled set, notifications, the full "
